@@ -17,6 +17,12 @@ def build_encdrv(variant):
                            extra_ldflags=WRAP_LD, extra_cflags=extra)
 
 
+def build_decdrv(variant):
+    extra = "-DVS_TSAN_ANNOTATE=1" if variant == "tsan" else ""
+    return vlib.cc_harness(variant, "decdrv_s", ["decdrv.c"], plain_sources=["sched.c"], enc=False, dec=True,
+                           extra_ldflags=WRAP_LD, extra_cflags=extra)
+
+
 def read_trace(path):
     """Returns (list of (nenabled, chosen) per decision point, summary dict)."""
     try:
